@@ -238,7 +238,10 @@ func init() {
 				us = append(us, scUnit("shutdown-"+k+"-batch", b))
 			}
 		}
-		us = append(us, feUnits(b, "fe-stepdown3", "fe-depose-ack3", "fe-transfer3", "fe-addvoter3")...)
+		us = append(us, feUnits(1, "fe-stepdown3", "fe-depose-ack3", "fe-transfer3", "fe-addvoter3")...)
+		if tier == "thorough" {
+			us = append(us, feUnits(2, "fe-stepdown3")...)
+		}
 		us = append(us, scUnit("stall-deposed3", 2))
 		us = append(us, scUnit("stepdown-calls", b), scUnit("verify-deposed", 1), scUnit("rcl1-after", 1), scUnit("rcl3-after", 1), scUnit("restore3-inflight", 1), scUnit("lease2nv-live", 0))
 		if tier == "thorough" {
